@@ -308,5 +308,5 @@ def replay(path):
     verdicts, _ = core.validate("Trace_C05", evs, nchunks=1)
     for v in verdicts:
         print("REPLAY verdict:", v)
-    print("REPLAY events:", json.dumps(evs)[:2000])
+    print("REPLAY events:", len(evs))
     return 1 if verdicts else 0
